@@ -136,14 +136,19 @@ CHECKS = {
             "assumptions": ["store and output store are recording stubs (os.RemoveAll / file writes are not executed)",
                             "instants in (0, 2^61) ns; retention_count / retention_period arbitrary 64-bit values (also negative)",
                             "population: <=NP jobs in pipeline p, <=NQ in q, <=1 in an undefined pipeline; every flag combination, Start nil or set",
-                            "sort.Sort is executed from its real SSA (insertion sort for these sizes)"],
+                            "sort.Sort is executed from its real SSA (insertion sort for these sizes)",
+                            "purge histories (L3 BMC with UNDEF / REDEF / SAVE events, <=K events, <=N jobs, two saves, no retention configured): L3 assumptions as for C01"],
             "runs": [step("VerifC12Retention", {"NP": 2, "NQ": 0}, {"NP": 2, "NQ": 0}, reach=["removed", "full-population"], flags={"solver": "cvc5-int"}, replay="harness"),
                      step("VerifC12Retention", {"NP": 1, "NQ": 1}, {"NP": 1, "NQ": 1}, reach=["removed", "full-population"], flags={"solver": "cvc5-int"}, replay="harness"),
                      step("VerifC12Retention", {"NP": 4, "NQ": 0, "finishedonly": 1}, {"NP": 4, "NQ": 0, "finishedonly": 1}, reach=["removed", "full-population"], flags={"solver": "cvc5-int"}, replay="harness"),
                      # larger populations without end instants (end instants: the three runs above)
                      step("VerifC12Retention", {}, {"NP": 3, "NQ": 0, "noend": 1}, reach=["removed", "full-population"], flags={"solver": "cvc5-int"}, replay="harness", thorough_only=True),
                      step("VerifC12Retention", {}, {"NP": 2, "NQ": 1, "noend": 1}, reach=["removed", "full-population"], flags={"solver": "cvc5-int"}, replay="harness", thorough_only=True),
-                     step("VerifC12Retention", {}, {"NP": 5, "NQ": 0, "finishedonly": 1, "noend": 1}, reach=["removed", "full-population"], flags={"solver": "cvc5-int"}, replay="harness", thorough_only=True), SELFTEST]},
+                     step("VerifC12Retention", {}, {"NP": 5, "NQ": 0, "finishedonly": 1, "noend": 1}, reach=["removed", "full-population"], flags={"solver": "cvc5-int"}, replay="harness", thorough_only=True), SELFTEST,
+                     # histories in which the pipeline disappears from the definitions: every save purges its jobs except one that still executes, and that one after it finished
+                     bmc({"K": 5, "N": 2, "undef": 1, "saves": 2, "reservedvar": 0, "taskerr": 0, "taskcancel": 0, "cancel": 0},
+                         {"K": 6, "N": 2, "undef": 1, "saves": 2, "reservedvar": 0, "taskerr": 0, "taskcancel": 0, "cancel": 0},
+                         reach=["undef", "save.purged-a-job", "save.kept-an-executing-job", "save.purged-a-job-that-had-been-kept", "end"])]},
     "C13": {"prefixes": ["C13."],
             "assumptions": ["lock discipline, not a whole-program race analysis: every access to memory reachable from the PipelineRunner must happen with r.mx held in the right mode",
                             "declared happens-before exceptions: the scheduler goroutine reads its own job's sched/ID; fields set once in NewPipelineRunner (store, outputStore, persistRequests, createTaskRunner) are immutable (writes are reported)",
